@@ -16,7 +16,7 @@ BOUNDS = dict(quick='L1: n <= 9 points, t2 in {3,4}, cost in {smape, r2}, symbol
               thorough='L1: n <= 11; L0: 8 pool curves, every position')
 ASSUMPTIONS = ['exact real arithmetic (T1)', 'L1: the detector is any function of the sub-range that respects its range contract (the contract itself is proved per detector in C09 / the inline layer)',
                'y >= 0, x strictly increasing']
-CONFIG = dict(quick=dict(budget_s=170, case_wall_s=150, max_paths=60000), thorough=dict(budget_s=1750, case_wall_s=1600, max_paths=1000000))
+CONFIG = dict(quick=dict(budget_s=170, case_wall_s=150, max_paths=60000), thorough=dict(budget_s=900, case_wall_s=700, max_paths=1000000))
 DETS = ['curvature', 'dfdt', 'menger', 'lmethod', 'kneedle']
 T2MIN = dict(curvature=3, dfdt=3, menger=4, lmethod=4, kneedle=3)
 
